@@ -22,7 +22,11 @@
     extension records with a registered prefix and an XML name.
     No proofs here. *)
 From E57 Require Import Base.Prelude Model.Meta Model.MetaFile Model.XmlTree Model.XmlGen Spec.XmlRender Spec.MetaTree.
+Require Import Coq.Strings.String.
 Local Open Scope N_scope.
+
+Local Notation "'B' s" := ltac:(let v := eval vm_compute in (bytes_of_string s%string) in exact v)
+  (at level 0, s at level 0, only parsing).
 
 (** a printable ASCII byte that is written as itself both in character data and in
     attribute values (no markup character, no blank other than the space) *)
@@ -142,3 +146,32 @@ Definition meta_xml_ok (m : file_meta) : bool :=
   extensions_ok (fm_extensions m) &&
   forallb (pointcloud_xml_ok (fm_extensions m)) (fm_pointclouds m) &&
   forallb image_xml_ok (fm_images m).
+
+(** * a concrete metadata value (non-vacuity examples of the theorems; also evaluated by the
+    extracted code in every run of the check, tools/props/c04.py, against the digest proved in
+    Proofs/XgRender.v) *)
+Definition xg_f (bits : N) (text : list N) : f64t := mkF64 bits text.
+Definition xg_example : file_meta :=
+  let one := xg_f 0x3ff0000000000000 (B "1") in
+  let half := xg_f 0x3fe0000000000000 (B "0.5") in
+  let ninf := xg_f 0xfff0000000000000 (B "-inf") in
+  mkFileMeta
+    (mkRoot STD_FORMAT_NAME (B "{guid}") 1 0 (Some (B "lib <&>")) (Some (mkDateTime half true)) (Some (B "a]]>b")))
+    [mkExtension (B "nor") (B "http://x/?a=1&b=""2""")]
+    [mkPointCloud (Some (B "pc]]>")) 48 2
+       [mkRecord CartesianX (DDouble None (Some one)); mkRecord CartesianY (DSingle (Some (mkF32 0x3f800000 (B "1"))) None);
+        mkRecord CartesianZ (DScaledInteger (-5) 5 half ninf); mkRecord Intensity (DInteger 0 255);
+        mkRecord (Unknown (B "nor") (B "normalX")) (DInteger (-9223372036854775808) 9223372036854775807)]
+       (Some [B "g1"; []]) (Some []) None
+       (Some (mkCb (Some ninf) (Some one) None None None None)) None
+       (Some (mkIb (Some (-1)%Z) None None None None None))
+       (Some (mkIl (Some (LInteger 0)) (Some (LInteger 255)))) None
+       (Some (mkTransform one half half half ninf one half)) (Some (mkDateTime one false)) None
+       (Some (B " ")) None None None None None (Some half) None None]
+    [mkImage (Some (B "img")) None
+       (Some (PSpherical (mkSphImg (mkImageBlob (mkBlob 1024 10) Jpeg) (Some (mkBlob 2048 3)) 4294967295 0 half one)))
+       None None (Some []) None None None None None].
+
+
+Definition xg_digest (bs : list N) : N * N :=
+  (len bs, fold_left (fun a b => (a * 31 + b) mod 4294967296) bs 0).
